@@ -47,6 +47,8 @@ func (e *Engine) alwaysPrecededBy(site ssa.Instruction, pred func(ssa.Instructio
 }
 
 func runC04(e *Engine, r *Report) {
+	// borrowed mechanisms (session 6, round 8): a received snapshot is acknowledged through raft state: its files are durable before that (C15)
+	borrow(e, r, "C15", "MPT-chunk-file-sync")
 	saveM := r.needMethod("raftio", "ILogDB", "SaveRaftState")
 	sendField := r.needField("dragonboat", "node", "sendRaftMessage")
 	freeOrder := r.need("dragonboat.isFreeOrderMessage")
